@@ -255,7 +255,37 @@ fn build_tree(rng: &mut Rng, case_id: u64, root_base: &Path) -> Tree {
     let caller_dirs = vec![root.join("callerA"), root.join("callerB")];
     let base = base_program(rng);
     let mut sp = Splitter { rng, files: vec![FileSpec { nodes: vec![], disk: main_dir.join(format!("main{:x}.asm", case_id)), rule: "main", form: "name" }], root: root.clone(), caller_dirs: caller_dirs.clone(), counter: 0, tag: format!("{:x}", case_id) };
-    let main_nodes = sp.split(base, &main_dir, 0);
+    let mut main_nodes = sp.split(base, &main_dir, 0);
+    // half of the trees also hold a file that is included more than once and guards parts of itself:
+    // `.ifndef G / .define G / first time / .else / later times / .endif`, or a guarded head followed
+    // by unguarded lines and an unrelated conditional at the end. Each inclusion is pasted anew.
+    if sp.rng.chance(1, 2) {
+        let k = sp.files.len();
+        let guard = format!("GUARD_{}_{}", sp.tag, k);
+        let d = |v: i64| Node::Data { label: None, width: 2, ops: vec![DataOp::E(E::Lit(v, 1))] };
+        let two_word = || Node::instr("lds", vec![Opnd::Reg(16), Opnd::Expr(E::Lit(0x123, 1))]);
+        let nodes = if sp.rng.chance(1, 2) {
+            vec![Node::Comment("guarded file".into()), Node::Cond { arms: vec![Arm { cond: Cond::NDef(guard.clone()), body: vec![Node::Define(guard.clone()), d(0x6001)] }], else_body: Some(vec![two_word(), d(0x6002)]) }, Node::Blank]
+        } else {
+            vec![
+                Node::Cond { arms: vec![Arm { cond: Cond::NDef(guard.clone()), body: vec![Node::Define(guard.clone()), d(0x6003)] }], else_body: None },
+                two_word(),
+                d(0x6004),
+                Node::Cond { arms: vec![Arm { cond: Cond::Expr(E::Lit(1, 0)), body: vec![d(0x6005)] }], else_body: None },
+                Node::Comment("end of twice-included file".into()),
+            ]
+        };
+        let fname = format!("g{}_{}.inc", sp.tag, k);
+        sp.files.push(FileSpec { nodes, disk: main_dir.join(&fname), rule: "includer-dir", form: "name" });
+        // at the start (code segment) and at the end (back in the code segment), two or three times
+        let at = main_nodes.iter().position(|n| !matches!(n, Node::Comment(_) | Node::Device(_) | Node::Blank)).unwrap_or(main_nodes.len());
+        main_nodes.insert(at, Node::Include { path: fname.clone(), file: k });
+        main_nodes.push(Node::Seg(Seg::Code));
+        main_nodes.push(Node::Include { path: fname.clone(), file: k });
+        if sp.rng.chance(1, 2) {
+            main_nodes.push(Node::Include { path: format!("./{}", fname), file: k });
+        }
+    }
     sp.files[0].nodes = main_nodes;
     Tree { files: sp.files, caller_dirs, root }
 }
